@@ -70,6 +70,9 @@ type SimStore struct {
 	sites   []Site // recorded sites of the current window (if recording)
 	record  bool
 	failAt  map[string]error // Site.String() -> error to inject (once)
+	failNth map[string]int   // kind -> fail when this many operations of the kind have been seen (once)
+	kindCnt map[string]int
+	nthErr  map[string]error
 	fired   []Site
 	opCount int
 
@@ -178,6 +181,16 @@ func (s *SimStore) FailSite(site Site, err error) {
 func (s *SimStore) ClearFaults() {
 	s.mu.Lock()
 	s.failAt = map[string]error{}
+	s.failNth = nil
+	s.mu.Unlock()
+}
+
+// FailNth arms one injected error on the n-th (0-based) operation of a kind from now on.
+func (s *SimStore) FailNth(kind string, n int, err error) {
+	s.mu.Lock()
+	s.failNth = map[string]int{kind: n}
+	s.kindCnt = map[string]int{}
+	s.nthErr = map[string]error{kind: err}
 	s.mu.Unlock()
 }
 
@@ -215,6 +228,16 @@ func (s *SimStore) op(kind string, key []byte) error {
 			delete(s.failAt, ss)
 			s.fired = append(s.fired, site)
 			ferr = e
+		}
+	}
+	if s.failNth != nil {
+		if n, ok := s.failNth[kind]; ok {
+			if s.kindCnt[kind] == n {
+				ferr = s.nthErr[kind]
+				s.fired = append(s.fired, site)
+				delete(s.failNth, kind)
+			}
+			s.kindCnt[kind]++
 		}
 	}
 	y := s.Yield
